@@ -22,7 +22,8 @@ pub fn parse(code: &str) -> Option<anstyle::Style> {
 
     let mut parts: std::collections::VecDeque<u8> = code
         .split(';')
-        .map(|c| c.parse::<u8>().ok())
+        // `u8::from_str` accepts an explicit `+`, SGR parameters are plain digits
+        .map(|c| c.parse::<u8>().ok().filter(|_| !c.starts_with('+')))
         .collect::<Option<_>>()?;
 
     let mut effects = anstyle::Effects::new();
